@@ -92,6 +92,7 @@ func c12(tier string) []*explore.Scenario {
 		out = append(out, c12SeqT(si, 1, maxLen+2, 0, true))
 		out = append(out, c12SeqT(si, 1, maxLen, 1, true))
 	}
+	out = append(out, c12Interference(1))
 	if tier == "thorough" {
 		for si := range c12Shapes {
 			out = append(out, c12Seq(si, 1, 2, 1))
@@ -272,4 +273,94 @@ func hasStreamEcho(d *env.Direct, id uint64) bool {
 		}
 	}
 	return echo && trailer
+}
+
+// c12Interference: a well-formed bidi stream is open and echoing; the peer
+// then sends, under the SAME id, an envelope that is not a well-formed request
+// for this server (wrong destination, unparsable method, unknown service or
+// method, no header) carrying a body, a trailer or a reset. Such envelopes are
+// ignored: the open stream goes on echoing and ends normally.
+func c12Interference(bound int) *explore.Scenario {
+	fam := "C12/hostile"
+	return &explore.Scenario{
+		Name: "C12/interference/open-stream-vs-malformed-same-id", Family: fam, Prop: "C12", Bound: bound,
+		Run: func() {
+			w := env.NewWorld()
+			d := env.NewDirect(w, env.DirectOpts{Pipe: env.PipeOpts{Cap: 256}, NoClient: true})
+			vsched.GoNamed("peer-reader", func() {
+				for {
+					if _, err := d.Pipe.A.Read(context.Background()); err != nil {
+						return
+					}
+				}
+			})
+			vsched.Settle()
+			kinds := []struct {
+				name string
+				mk   func() *env.Rpc
+			}{
+				{"body", func() *env.Rpc { return env.ReqBody(1, env.MBidi, "INTRUDER") }},
+				{"trailer", func() *env.Rpc { return env.ReqTrailer(1, env.MBidi) }},
+				{"reset", func() *env.Rpc { return env.ReqReset(1, env.MBidi) }},
+			}
+			breaks := []struct {
+				name string
+				do   func(r *env.Rpc)
+			}{
+				{"wrong-destination", func(r *env.Rpc) { r.Header.Destination = "someone-else" }},
+				{"unparsable-method", func(r *env.Rpc) { r.Header.Method = "nomethod" }},
+				{"unknown-service", func(r *env.Rpc) { r.Header.Method = "/no.Such/Bidi" }},
+				{"unknown-method", func(r *env.Rpc) { r.Header.Method = "/verif.Svc/Nope" }},
+				{"no-header", func(r *env.Rpc) { r.Header = nil }},
+			}
+			k := kinds[vsched.Choose(len(kinds))]
+			b := breaks[vsched.Choose(len(breaks))]
+			vsched.Explore(true)
+			r := w.Rec("s", "Bidi")
+			d.Pipe.A.Inject(env.ReqOpen(1, env.MBidi, "s"))
+			d.Pipe.A.Inject(env.ReqBody(1, env.MBidi, "one"))
+			vsched.Quiesce()
+			bad := k.mk()
+			b.do(bad)
+			d.Pipe.A.Inject(bad)
+			vsched.Quiesce()
+			d.Pipe.A.Inject(env.ReqBody(1, env.MBidi, "two"))
+			d.Pipe.A.Inject(env.ReqTrailer(1, env.MBidi))
+			vsched.Quiesce()
+			echoes, okTrailer, resets := []string{}, false, 0
+			for _, e := range d.Tap.Events {
+				if e.Dir != "b2a" || e.Rpc.GetId() != 1 {
+					continue
+				}
+				if e.Rpc.Reset_ != nil {
+					resets++
+				}
+				if e.Rpc.Body != nil {
+					m := new(env.Msg)
+					if unmarshal(e.Rpc.Body.Data, m) == nil {
+						echoes = append(echoes, string(m.Value))
+					}
+				}
+				if e.Rpc.Trailer != nil && e.Rpc.Reset_ == nil && e.Rpc.GetStatus().GetCode() == 0 {
+					okTrailer = true
+				}
+			}
+			vsched.Obs("%s with %s: handler recv=%v echoes=%v okTrailer=%v resets=%d", k.name, b.name, r.HRecv, echoes, okTrailer, resets)
+			if !eqStrs(r.HRecv, []string{"one", "two"}) || !eqStrs(echoes, []string{"e:one", "e:two"}) || !okTrailer || r.HStarts != 1 {
+				vsched.Fail(fam+"|open-stream-disturbed", "an open stream (id 1) was echoing; the peer sent a %s with %s under the same id, which is not a well-formed request for this server and must be ignored; afterwards the stream's handler had received %v (want [one two]), the peer saw echoes %v, OK trailer %v, %d resets", k.name, b.name, r.HRecv, echoes, okTrailer, resets)
+			}
+			pu := w.Rec("probe-u", "Unary")
+			d.Pipe.A.Inject(env.ReqUnary(100, "probe-u", "x"))
+			vsched.Quiesce()
+			if pu.HStarts != 1 || !hasUnaryReply(d, 100, "R:probe-u|x") {
+				vsched.Fail(fam+"|probe-unary", "after a %s with %s: a valid unary request was not served", k.name, b.name)
+			}
+			d.Pipe.A.Break()
+			d.Pipe.B.Break()
+			vsched.Quiesce()
+			if !d.ServeDone {
+				vsched.Fail(fam+"|serve-hang", "Serve did not return when the transport closed; threads: %s", threadList())
+			}
+		},
+	}
 }
